@@ -88,6 +88,13 @@ func (p *Parser) loadFile(path string, child *file) (*file, error) {
 }
 
 func (p *Parser) loadFileAndParents(path string, child *file) ([]*file, error) {
+	// A file that is (transitively) its own parent would recurse forever.
+	for c := child; c != nil; c = c.child {
+		if sameFilePath(c.path, path) {
+			return nil, fmt.Errorf("%s: $parent: %w", path, ErrCircularRef)
+		}
+	}
+
 	f, err := p.loadFile(path, child)
 	if err != nil {
 		return nil, err
@@ -266,6 +273,17 @@ func (f *file) toAbsolutePaths(paths []string) ([]string, error) {
 
 func (f *file) String() string {
 	return f.id
+}
+
+func sameFilePath(a, b string) bool {
+	absA, errA := filepath.Abs(a)
+	absB, errB := filepath.Abs(b)
+
+	if errA != nil || errB != nil {
+		return a == b
+	}
+
+	return absA == absB
 }
 
 func isStdin(path string) bool {
